@@ -31,11 +31,13 @@ META = {
                    'latest pending value of each assigned column (none if nothing pending) and leave the row = old row '
                    'overridden by them; dirty <-> pending non-empty in every reachable state (any operations, raw SQL '
                    'included); INSERT and DELETE are immediate.  The model is hand-written from main.py and compared with '
-                   'the real code on every run.  C16_translated_{syncUpdate,sync,setValue,set1,set0}_eq_model: the bodies of '
+                   'the real code on every run.  C16_translated_{syncUpdate,sync,setValue,set}_eq_model: the bodies of '
                    'syncUpdate / sync / _SO_setValue / set, translated from the AST on this run (vlib/extractors/pymain.py -> '
                    'Extracted/PyMain.lean), run from the image of ANY model state with ANY insertion order of the pending '
-                   'dict, yield exactly what opSyncUpdate / opSync / opSetattr / opSet yield (set: proved for calls with '
-                   'no keyword and with one keyword, lazy and eager branch; n keywords: hand model + correspondence).'),
+                   'dict, yield exactly what opSyncUpdate / opSync / opSetattr / opSet yield; set(**kw): for EVERY keyword '
+                   'list with distinct column names, any mix of valid and rejected values, lazy and eager branch, refused '
+                   'UPDATE (loop invariants for the validation and caching loops).  C16_translated_*_reachable: in every '
+                   'state reachable by any operations the structural side conditions hold (anyReach_cols).'),
     'level_note': ('Trusted: Lean kernel, the harness (statement canonicaliser), SQLite as the row store; the sampling '
                    'correspondence of the model.  Event listeners, joins and per-connection instances are not modelled.'),
     'rule': ('case = one history (cache on/off, read mode A/B, ≤ 25 ops, 70 % on lazy classes); distinct = distinct op '
